@@ -293,7 +293,8 @@ type replayer struct {
 	ctx    context.Context
 	m      *lakeh.AbsModel
 	ts     *traceSet
-	full   bool // full response-format matrix on every step (thorough)
+	full   bool // full response-format matrix on every read (replay of a witness)
+	lean   bool // quick tier: fewer raw requests per history
 	nextID func() int
 }
 
@@ -501,14 +502,23 @@ func (rp *replayer) compareBranch(p *pair, h lakeh.History, upto, hidx int, st *
 	}
 	// response formats: one (format, ctrl) pair per read, the whole matrix on the last step
 	var combos [][2]int
-	if rp.full || (last && bi == 0) {
+	k := int(rp.c.Seed%1000)*7 + hidx*5 + upto*3 + bi
+	switch {
+	case rp.full:
 		for fi := range respFmts {
 			for ci := range ctrlModes {
 				combos = append(combos, [2]int{fi, ci})
 			}
 		}
-	} else {
-		k := int(rp.c.Seed%1000)*7 + hidx*5 + upto*3 + bi
+	case last && bi == 0:
+		// one request per response format, the ctrl mode rotating
+		for fi := range respFmts {
+			if rp.lean && (fi+hidx)%3 == 0 {
+				continue
+			}
+			combos = append(combos, [2]int{fi, (k + fi) % len(ctrlModes)})
+		}
+	case !rp.lean || upto%2 == 0:
 		combos = append(combos, [2]int{k % len(respFmts), (k / len(respFmts)) % len(ctrlModes)})
 	}
 	for _, cb := range combos {
@@ -517,7 +527,7 @@ func (rp *replayer) compareBranch(p *pair, h lakeh.History, upto, hidx int, st *
 			return ok, err
 		}
 	}
-	if last && bi == 0 {
+	if last && bi == 0 && (!rp.lean || hidx%3 == 0) {
 		if ok, err := rp.extraQueries(p, h, upto, hidx, b); err != nil || !ok {
 			return ok, err
 		}
@@ -636,7 +646,7 @@ func (rp *replayer) extraQueries(p *pair, h lakeh.History, upto, hidx int, b str
 			}
 		}
 		// raw requests, TLC decides order/attribution/error delivery
-		for _, cb := range [][2]int{{0, 0}, {0, 1}, {2, 0}, {1 + (hidx+qi)%2*2, (hidx + qi) % 3}} {
+		for _, cb := range [][2]int{{0, 0}, {2 * ((hidx + qi) % 2), 1}, {1 + (hidx+qi)%4, (hidx + qi) % 3}} {
 			f, cm := respFmts[cb[0]], ctrlModes[cb[1]]
 			raw, err := rawQuery(ctx, p.R.url, x.src, f, cm)
 			if err != nil {
